@@ -184,6 +184,17 @@ def run(ctx):
                 V('recorded-evidence-not-checked', "recorded block 1 with altered %s passes in-state validation" % nm, {'k': 'rec'})
             except Exception:
                 pass
+    # refused look-alikes must leave no trace: the genuine recorded blocks still pass afterwards (same process)
+    if all(b is not None for b in blocks):
+        cs3 = CoinState.empty().add_block_no_validation(blocks[0])
+        for (h, hexid, raw), b in list(zip(recorded, blocks))[1:]:
+            n += 1
+            try:
+                cs3 = cs3.add_block(Block.deserialize(raw), b.timestamp)
+            except Exception as e:
+                V('recorded-block-refused', "recorded block %d no longer passes full validation after altered copies of recorded "
+                  "blocks had been offered (and refused) in the same process: %r" % (h, e), {'k': 'rec'})
+                break
     ctx.cov.update({
         'evaluations': n, 'distinct_nontrivial': distinct,
         'rule': "all 327 checkpoint heights x {wrong id, right id, id of the neighbouring checkpoint} x {validate_block_in_"
